@@ -89,6 +89,20 @@ def fixed_beta_specs(ctx):
     return specs
 
 
+def portfolio_specs(ctx):
+    """A user-configured portfolio of search strategies (advanced option search_method): one strategy only, the two in the other order, three entries."""
+    from .. import gen
+    rng = ctx.sub_rng("c18portfolio")
+    specs = []
+    for pf in ("[('ES-ell', 1)]", "[('ES-wcm', 1)]", "[('ES-ell', 1), ('ES-wcm', 1)]", "[('ES-wcm', 0), ('ES-ell', 1)]", "[('ES-ell', 1), ('ES-wcm', 1), ('ES-ell', 0)]"):
+        for mode in (("det",) if ctx.quick else ("det", "decl")):
+            sp = gen.make_spec(rng, D=rng.choice([1, 2, 3]), geom=rng.choice(["box", "tight"]), mode=mode, cons=None, target=rng.choice(["quad", "abs"]))
+            sp["options"] = {"n_search": 32, "max_fun_evals": (sp["D"] + 26) if mode == "det" else 60, "noise_final_samples": 0}
+            sp["np_options"] = {"search_method": pf}
+            specs.append(sp)
+    return specs
+
+
 def large_population_specs(ctx):
     """Search populations larger than the default (n_search / n_search_iter candidates per ES generation: 3000, 5000, 4100)."""
     from .. import gen
@@ -121,6 +135,7 @@ def run_level(ctx, rep):
         runlevel.with_extra(ctx, "c18tiny", lambda: tiny_population_specs(ctx))
         runlevel.with_extra(ctx, "c18beta", lambda: fixed_beta_specs(ctx))
         runlevel.with_extra(ctx, "c18large", lambda: large_population_specs(ctx))
+        runlevel.with_extra(ctx, "c18portfolio", lambda: portfolio_specs(ctx))
     if not getattr(ctx, "_replaying", False):
         runlevel.scripted_controller_runs(ctx, "c18script", 8 if ctx.quick else 60, want=("ctl", "filt", "gp"))
     traces = runlevel.get_pool(ctx)
@@ -190,6 +205,15 @@ def run_level(ctx, rep):
                     p = np.array(e["prob"])
                     if not np.all(np.isfinite(p)) or abs(np.sum(p) - 1) > 1e-12 or np.any(p < e["gamma"] - 1e-15) or not (0 <= e["chosen"] < e["n"]):
                         rep.violation("hedge_distribution", SITE_H, f"strategy probabilities {p.tolist()} (gamma={e['gamma']}, chosen={e['chosen']}) are not a proper distribution with floor gamma; {tag}", case)
+                # the portfolio the strategy is drawn from is the one the USER configured (advanced option search_method), entry by entry
+                cfg = (sp.get("np_options") or {}).get("search_method")
+                if cfg and e.get("fcns") is not None and "portfolio" not in reported:
+                    want = [[str(a), int(b)] for a, b in eval(cfg)]
+                    stats["portfolio_checked"] = stats.get("portfolio_checked", 0) + 1
+                    if e["fcns"] != want:
+                        reported.add("portfolio")
+                        rep.violation("hedge_distribution", SITE_H, f"the search strategy is drawn from the portfolio {e['fcns']} (probabilities {e['prob']}), the configured portfolio "
+                                      f"(options['search_method']) is {want}: no proper distribution over the portfolio; {tag}", case)
                 # nothing survived in any generation: nothing may be proposed
                 if es_out and all(n == 0 for n in es_out):
                     stats["all_empty_searches"] = stats.get("all_empty_searches", 0) + 1
